@@ -1,5 +1,5 @@
 (* Props/C02.v — property C02: emitted JSON Schema and validator agree on JSON documents.  Statements only. *)
-From Beff Require Import Model.JsonSchema Model.Cases Proofs.C02.
+From Beff Require Import Model.JsonSchema Model.Cases Proofs.C02 Proofs.C02Sound.
 
 (* ---- a type JSON Schema cannot express (Date, bigint, Map, Set, typed arrays at a position the flat printer
         visits) makes schema() throw instead of emitting a schema: for all trees, environments, states ---- *)
@@ -14,6 +14,34 @@ Definition C02_sound_flat : Prop :=
     schema env default_conf Flat f [] None empty_ctx r = Ok (j, c') ->
     val_to_json f v = Some d -> js_valid (fun _ => None) f j d = true ->
     validate F0 env f false r v = Ok true.
+
+(* ---- soundness, proved on a fragment (Proofs/C02Sound.v): primitives, any, null/undefined, literals and literal sets, arrays,
+        unions, optional members, closed objects (distinct keys, none named like an Object.prototype member), records
+        (one index signature, no declared property), named types that are not recursive, descriptions anywhere.
+        For every such validator tree, every environment, every JSON document: a document valid against the flat
+        schema is accepted by the validator -- in strict mode too, i.e. it carries no undeclared key.
+        Outside: tuples (refuted below), intersections, discriminated dispatch, template patterns, custom formats. ---- *)
+Theorem C02_flat_schema_sound_on_fragment :
+  forall F env cf fs r j c' fj fz fv strict v d b,
+    sfrag env fs [] r = true ->
+    schema env cf Flat fs [] None empty_ctx r = Ok (j, c') ->
+    val_to_json fz v = Some d -> js_valid (fun _ => None) fj j d = true ->
+    validate F env fv strict r v = Ok b -> b = true.
+Proof. exact flat_schema_sound_on_fragment. Qed.
+
+(* the fragment is not empty: a recursive-free program with a named type, a record, a union with null, literals and an optional member *)
+Definition c02_env : renv :=
+  [("Tag", RAnyOfConsts [CStr "a"; CStr "b"]);
+   ("Item", RObject [("tag", RRef "Tag"); ("n", ROptional (RTypeof TyNumber)); ("note", RAnyOf [RTypeof TyString; RNullish "null"])] [])].
+Definition c02_rt2 : rt :=
+  RMeta "a page" (RObject [("items", RArray (RRef "Item")); ("byName", RObject [] [(RTypeof TyString, RRef "Item")]); ("any", RAny)] []).
+Example C02_fragment_nonvacuous :
+  sfrag c02_env 20 [] c02_rt2 = true /\
+  exists j c', schema c02_env default_conf Flat 20 [] None empty_ctx c02_rt2 = Ok (j, c') /\
+    js_valid (fun _ => None) 20 j
+      (JObj [("items", JArr [JObj [("tag", JStr "a"); ("note", JStr "x")]]); ("byName", JObj [("k", JObj [("tag", JStr "b"); ("n", JNum (NInt 1))])]); ("any", JNull)]) = true /\
+    js_valid (fun _ => None) 20 j (JObj [("items", JArr [JObj [("tag", JStr "c")]]); ("byName", JObj []); ("any", JNull)]) = false.
+Proof. split; [vm_compute; reflexivity|]. eexists. eexists. split; [vm_compute; reflexivity|]. split; vm_compute; reflexivity. Qed.
 
 (* refuted by the unchanged code: tuples are printed with prefixItems / items:false but without minItems *)
 Theorem C02_refuted_tuple_without_minItems : ~ C02_sound_flat.
@@ -44,5 +72,6 @@ Example C02_nonvacuous :
 Proof. eexists. eexists. split; [vm_compute; reflexivity|]. repeat split; vm_compute; reflexivity. Qed.
 
 Print Assumptions C02_flat_unsupported_throws.
+Print Assumptions C02_flat_schema_sound_on_fragment.
 Print Assumptions C02_refuted_tuple_without_minItems.
 Print Assumptions C02_refuted_never_is_malformed.
